@@ -128,7 +128,7 @@ def body_ph(ctx, direction):
         _lemma(ctx, A, B, skip)
 
 
-def body_label_step(ctx, det, pre, aux, which):
+def body_label_step(ctx, det, pre, aux, which, concrete=None):
     if det == "DDM":
         A, _ = c05.make_ddm_state(ctx, pre, aux)
         name, larger_is_stricter = ("drift_scale", True) if which == "drift" else ("warning_scale", True)
@@ -140,9 +140,20 @@ def body_label_step(ctx, det, pre, aux, which):
     else:
         A, _, M, fake = c05.make_stepd_state(ctx, pre, aux)
         name, larger_is_stricter = ("alpha_drift", False) if which == "drift" else ("alpha_warning", False)
-    strict = getattr(A, name)
-    loose = ctx.real(name + "_loose")
-    ctx.assume(loose <= strict if larger_is_stricter else loose >= strict)
+    if concrete is not None:
+        # concrete threshold pairs, including the legal boundary configuration "no warning zone" (both thresholds equal,
+        # also as 3 and 3.0): proxies cannot be dictionary keys or set members, so code that keys on the threshold values
+        # only runs with real numbers (seed C17-8); the detector state stays symbolic
+        other = {"drift_scale": "warning_scale", "warning_scale": "drift_scale", "drift_thresh": "warning_thresh",
+                 "warning_thresh": "drift_thresh", "alpha_drift": "alpha_warning", "alpha_warning": "alpha_drift"}[name]
+        setattr(A, other, concrete["other"])
+        setattr(A, name, concrete["strict"])
+        strict, loose = concrete["strict"], concrete["loose"]
+        assert (loose <= strict) if larger_is_stricter else (loose >= strict)
+    else:
+        strict = getattr(A, name)
+        loose = ctx.real(name + "_loose")
+        ctx.assume(loose <= strict if larger_is_stricter else loose >= strict)
     B = copy.deepcopy(A)
     setattr(B, name, loose)
     if which == "warning":
@@ -440,6 +451,19 @@ def jobs(tier):
             for L in range(0 if pre is None else 1, 3 if q else 4):
                 out.append(Job(f"stepd-{which}-{pre}-L{L}", "checks.c17:body_label_step",
                                {"det": "STEPD", "pre": pre, "aux": L, "which": which}, expect=("lemma",)))
+    # concrete threshold pairs around "no warning zone" (equal thresholds; int vs float spellings of the same number)
+    conc = {
+        ("DDM", "drift"): [{"other": 3, "strict": 4, "loose": 3.0}, {"other": 3.0, "strict": 3.5, "loose": 3}],
+        ("DDM", "warning"): [{"other": 3, "strict": 3.0, "loose": 2}, {"other": 3, "strict": 3, "loose": 1}],
+        ("EDDM", "drift"): [{"other": 0.9, "strict": 0.8, "loose": 0.9}, {"other": 1, "strict": 0.5, "loose": 1.0}],
+        ("EDDM", "warning"): [{"other": 0.9, "strict": 0.9, "loose": 0.95}, {"other": 1, "strict": 1.0, "loose": 2}],
+        ("STEPD", "drift"): [{"other": 0.5, "strict": 0.25, "loose": 0.5}, {"other": 1, "strict": 0.5, "loose": 1.0}],
+        ("STEPD", "warning"): [{"other": 0.5, "strict": 0.5, "loose": 0.75}, {"other": 1, "strict": 1.0, "loose": 2}],
+    }
+    for (det, which), pairs in conc.items():
+        for i, pair in enumerate(pairs):
+            out.append(Job(f"{det.lower()}-{which}-concrete-thresholds-{i}", "checks.c17:body_label_step",
+                           {"det": det, "pre": None, "aux": 1, "which": which, "concrete": pair}, expect=("lemma",)))
     for cons in (False, True):
         out.append(Job(f"adwin-epsilon-monotone-conservative{int(cons)}", "checks.c17:body_adwin_eps", {"conservative": cons},
                        expect=("lemma",), opts={"validate": 0}))
